@@ -233,7 +233,7 @@ def ev(e, env):
                     return mul(a, const(1 << cb))
                 return atom(("div" if nm == "div" else "shr", freeze(a), cb))
             return opaque()
-        if nm in ("clone", "to_owned", "into", "unwrap", "expect", "as_ref", "borrow") and len(args) <= 1:
+        if nm in ("clone", "to_owned", "into", "unwrap", "expect", "as_ref", "borrow", "ok_or_else", "ok_or", "context", "with_context", "unwrap_or_default") and len(args) <= 1:
             return ev(e["recv"], env)
         if nm == "len" and not args:
             p = ev_place(e["recv"], env)
